@@ -1,0 +1,14 @@
+//go:build verif
+
+package parse
+
+// VerifYieldHook, when set by a verification harness, is called at the scheduling
+// points of the concurrent import retrieval so that a recorded interleaving can be
+// replayed against the real code.
+var VerifYieldHook func(point, file string, depth int)
+
+func verifYield(point, file string, depth int) {
+	if h := VerifYieldHook; h != nil {
+		h(point, file, depth)
+	}
+}
